@@ -68,12 +68,14 @@ func findingID(op, kind string) string {
 // pinString is the key of a pinned deviation: type | field class | operator GROUP | failure kind.
 // The field class is part of the key for the groups whose placements TestStructural enumerates
 // completely (null / missing / wrong-type field, self-described tag, array length), so that a new
-// panic at another field of an already pinned type is still reported. The altered-value group (bit
-// flips, copied / zeroed / stepped leaves: drawn, not enumerated) is pinned per type (class "*").
+// panic at another field of an already pinned type is still reported. Two groups are pinned per type
+// (class "*"): altered-value (bit flips, copied / zeroed / stepped leaves: drawn, not enumerated) and
+// selfdescribed-null (a decoder without a `dto == nil` check fails at EVERY position of the type:
+// 621 placements on ead8bd4, one root cause per decoder).
 func pinString(e *entry, op, class, kind string) string {
 	g := opGroup(op)
 	class = strings.TrimSuffix(class, "[]")
-	if g == "altered-value" {
+	if g == "altered-value" || g == "selfdescribed-null" {
 		class = "*"
 	}
 	if strings.HasPrefix(op, "hostile:") {
@@ -100,6 +102,9 @@ var (
 func isPinned(key string) bool {
 	pinnedOnce.Do(func() {
 		pinnedSet = map[string]bool{}
+		if os.Getenv("VERIF_C12_NOPINS") != "" { // development aid: re-collect from scratch
+			return
+		}
 		for _, k := range pinned {
 			pinnedSet[k] = true
 		}
